@@ -234,6 +234,9 @@ func (e *connectError) ConnectResponse() *http.Response {
 	return e.res
 }
 
+// maxConnectRejectionBody is the most that is kept of the body of an upstream proxy's CONNECT rejection.
+const maxConnectRejectionBody = 64 << 10
+
 func OnProxyConnectResponse(_ context.Context, _ *url.URL, req *http.Request, connectRes *http.Response) error {
 	if connectRes.StatusCode/100 == 2 {
 		return nil
@@ -248,7 +251,8 @@ func OnProxyConnectResponse(_ context.Context, _ *url.URL, req *http.Request, co
 		cl   int64
 	)
 	if connectRes.ContentLength > 0 {
-		b, err := io.ReadAll(connectRes.Body)
+		// The rejection is passed on with its body: what an upstream proxy may make us hold is limited.
+		b, err := io.ReadAll(io.LimitReader(connectRes.Body, maxConnectRejectionBody))
 		if err != nil {
 			log.Error(req.Context(), "failed to read CONNECT response body", "error", err)
 		} else {
